@@ -116,6 +116,14 @@ def check_fasta(facts, chk, rule='C03.fasta'):
 
 
 def run(facts, chk, tier, only=None):
+    from . import buildops
+    # the parallel build, functionally: sample i owns name i and column i for every recursion depth
+    chk.guard('C03.func', 'C03.func:parallel_append', lambda: buildops.check_parallel_append(facts, chk, 'C03.func', tier))
+    # samples may also reach `ska align` through `ska merge`: names and columns must stay paired through to_dict / extend / new
+    from . import tableops
+    chk.guard('C03.func', 'C03.func:pipeline', lambda: tableops.check_merge_pipeline(facts, chk, 'C03.func', tier))
+    from . import e2e
+    chk.guard('C03.e2e', 'C03.e2e:run', lambda: e2e.check_align_e2e(facts, chk, 'C03.e2e', tier))
     chk.guard('C03.column', 'C03.column:run', lambda: check_column(facts, chk))
     chk.guard('C03.gap', 'C03.gap:run', lambda: check_gap(facts, chk))
     chk.guard('C03.fasta', 'C03.fasta:run', lambda: check_fasta(facts, chk))
